@@ -96,6 +96,8 @@ fn scen_c03(spec: RunSpec) -> ScenFut {
                     c.delay_pm = 15;
                     c.body_break_pm = 10;
                     c.fault_budget = b2;
+                    c.outage_pm = 15;
+                    c.outage_budget = 1;
                 }
                 2 => {
                     c.crash_pm = 6;
